@@ -928,3 +928,20 @@ func (c *Ctx) resolveParam(v ssa.Value, rel string) []ssa.Value {
 	walk(v, 0)
 	return out
 }
+
+// edgeDominates: every path to target runs over the edge from b to its i-th successor: the successor dominates target
+// and is entered only over that edge (or over back edges from blocks it dominates). A join block that both arms of a
+// test fall into dominates what follows without the test's outcome being known there.
+func edgeDominates(b *ssa.BasicBlock, i int, target *ssa.BasicBlock) bool {
+	s := b.Succs[i]
+	if !s.Dominates(target) {
+		return false
+	}
+	for _, p := range s.Preds {
+		if p != b && !s.Dominates(p) {
+			return false
+		}
+	}
+	// both successors the same block: the edge says nothing
+	return len(b.Succs) < 2 || b.Succs[0] != b.Succs[1]
+}
